@@ -1,6 +1,8 @@
 import Juniper.Proofs.BatchClose
 import Juniper.Proofs.BatchWaiter
 import Juniper.Proofs.BatchSize
+import Juniper.Model.Skeleton
+import Juniper.Generated.Skeleton
 /-!
 # C11 — stream.Batch / BatchFunc partition their source under every timing and Close always returns
 (with the Batch clauses of C08 and C09)
@@ -31,6 +33,31 @@ theorem code_order_facts :
     Gen.Batch.unbufferedChans = Gen.Batch.chanMakes ∧
     Gen.Batch.timerResetDur = Gen.Batch.timerDur := by
   refine ⟨by decide, by decide, by decide, by decide, rfl⟩
+
+/-- Tie 1 for the control flow *between* the regenerated facts: the statement-kind skeletons of
+`Batch`, `BatchFunc`, its producer goroutine (three `defer`s; `for { Next; if End {break} else if <own
+cancellation> {break} else if err != nil { out.err = err; return }; select { c <- item | <-bgCtx.Done():
+return } }`), the batcher goroutine with its deferred cleanup and loop, `flush`, `stopTimer`,
+`startTimer`, `batchStream.Next` and `Close`, regenerated from `stream/stream.go`
+(`Juniper.Gen.Skeleton`), are exactly the ones `Model/Batch.lean` hard-wires (`Model/Skeleton.lean`):
+no statement was added, removed or moved. -/
+theorem skeleton_ok :
+    Gen.Skeleton.batch = Model.Skeleton.batch ∧ Gen.Skeleton.batchFunc = Model.Skeleton.batchFunc ∧
+    Gen.Skeleton.batchProducer = Model.Skeleton.batchProducer ∧ Gen.Skeleton.batchBatcher = Model.Skeleton.batchBatcher ∧
+    Gen.Skeleton.batchFlush = Model.Skeleton.batchFlush ∧ Gen.Skeleton.batchStopTimer = Model.Skeleton.batchStopTimer ∧
+    Gen.Skeleton.batchStartTimer = Model.Skeleton.batchStartTimer ∧ Gen.Skeleton.batchNext = Model.Skeleton.batchNext ∧
+    Gen.Skeleton.batchClose = Model.Skeleton.batchClose := by
+  decide
+
+/-- Tie 1 for the producer's three-way test on what `s.Next(bgCtx)` returned: the regenerated guard of
+the middle branch ("this is my own cancellation, `break` without recording an error") is
+`err == context.Canceled && bgCtx.Err() == context.Canceled` — it can hold only after `Close` has
+cancelled `bgCtx`, whatever the error is; an error that merely *is* or *wraps* `context.Canceled`
+while `bgCtx` is live is a failure of the source and goes to `out.err = err`. -/
+theorem cancel_guard_needs_close :
+    (∀ errEq errIs bgEq bgDone, Gen.Batch.prodCancelGuard errEq errIs bgEq bgDone = (errEq && bgEq)) ∧
+    (∀ errEq errIs, Gen.Batch.prodCancelGuard errEq errIs false false = false) := by
+  decide
 
 theorem reach_good {cfg : Cfg} {s : State} (h : Reach code cfg s) : Reach good cfg s :=
   code_is_good ▸ h
@@ -183,8 +210,16 @@ example : ∃ s, Reach code (Cfg.ofFunc 10) s ∧ s.cons = .inner ∧ s.batch = 
 /-- **A source error is reported after the items that preceded it** (C08): when `Next` reports the
 source's error, the source did fail and every item it handed out before failing has been returned in
 a batch; the error is never replaced by the normal end (and `End` is reported only for a source that
-ended normally); and once the error (or the end) has been reported no later `Next` returns a batch. -/
+ended normally); and once the error (or the end) has been reported no later `Next` returns a batch.
+"The source failed" (`srcTerm = some .err`) includes a source that fails *of its own accord* with
+`context.Canceled` or an error wrapping it (label `srcCancelErr`) while nobody has cancelled anything:
+(0) the regenerated guard of the producer's "my own cancellation" branch is false whenever `bgCtx` is
+live, whatever the error, and the producer / `Next` have no other statement between the source's
+`Next` and `out.err = err` resp. between the closed `batchC` and `return nil, iter.err` (regenerated
+control skeletons). -/
 theorem batch_error_after_items {cfg : Cfg} {s : State} (h : Reach code cfg s) :
+    ((∀ errEq errIs, Gen.Batch.prodCancelGuard errEq errIs false false = false) ∧
+      Gen.Skeleton.batchProducer = Model.Skeleton.batchProducer ∧ Gen.Skeleton.batchNext = Model.Skeleton.batchNext) ∧
     (.srcErr ∈ s.results → s.srcTerm = some .err ∧ (batchesOf s.results).flatten = s.pulled) ∧
     (s.srcTerm = some .err → .endOK ∉ s.results) ∧
     (.endOK ∈ s.results → s.srcTerm = some .eof) ∧
@@ -192,7 +227,7 @@ theorem batch_error_after_items {cfg : Cfg} {s : State} (h : Reach code cfg s) :
       ∀ l s', step code cfg s l = some s' → batchesOf s'.results = batchesOf s.results) := by
   have h2 := inv2_reach (reach_good h)
   have h3 := inv3_reach (reach_good h)
-  refine ⟨?_, ?_, h3.r2, ?_⟩
+  refine ⟨⟨by decide, by decide, by decide⟩, ?_, ?_, h3.r2, ?_⟩
   · intro he
     refine ⟨h3.r3 he, ?_⟩
     have := (h3.r1 _ he (Or.inr rfl)).2.2
@@ -215,6 +250,20 @@ example : ∃ s, Reach code (Cfg.ofBatch 10 2) s ∧ s.results = [.batch [7], .s
   ⟨_, reach_of_run Reach.init
     [.srcRet (.item 7), .prodSend, .fullRet false, .srcRet .err, .prodCloseC, .recvCClosed,
      .nextCall true, .deliver, .batchExit, .nextCall true, .consClosed] rfl, by decide, by decide⟩
+
+/-- a source that fails on its own with `context.Canceled` (bare, then wrapped) while nobody cancelled
+anything: the error is reported after the item, not the normal end -/
+example : ∃ s, Reach code (Cfg.ofBatch 10 2) s ∧ s.results = [.batch [7], .srcErr] ∧ s.srcTerm = some .err ∧
+    s.bgCancelled = false :=
+  ⟨_, reach_of_run Reach.init
+    [.srcRet (.item 7), .prodSend, .fullRet false, .srcCancelErr false, .prodCloseC, .recvCClosed,
+     .nextCall true, .deliver, .batchExit, .nextCall true, .consClosed] rfl, by decide, by decide, by decide⟩
+example : ∃ s, Reach code (Cfg.ofBatch 10 2) s ∧ s.results = [.srcErr] ∧ s.srcTerm = some .err :=
+  ⟨_, reach_of_run Reach.init
+    [.srcCancelErr true, .prodCloseC, .recvCClosed, .batchExit, .nextCall true, .consClosed] rfl, by decide, by decide⟩
+/-- after `Close`, a bare `context.Canceled` out of the source is the producer's own cancellation -/
+example : ∃ s, Reach code (Cfg.ofBatch 10 2) s ∧ s.bgCancelled = true ∧ s.err = false ∧ s.ppc = .closeC :=
+  ⟨_, reach_of_run Reach.init [.close, .srcCancelErr false] rfl, by decide, by decide, by decide⟩
 
 /-- **A `Next` that fails on its expired context costs nothing** (C08): the failing step changes
 nothing but the call's own bookkeeping, the batches returned by the other calls are unaffected, and
@@ -242,16 +291,21 @@ background context is cancelled: it stays cancelled, every step of the producer,
 runtime strictly decreases `measure` (so only finitely many can happen), and a state in which none is
 enabled has both goroutines finished and `wg.Wait()` returned. Assumptions: the user's `full`
 returns (`hfull`) and the source's `Next` honours `bgCtx` (the `prodCancelled` step). That `Close` is
-`bgCancel(); wg.Wait()` over two goroutines is `code_order_facts`. -/
+`bgCancel(); wg.Wait()` over two goroutines is `code_order_facts`; first conjunct: `Close`, `flush`
+and `stopTimer` contain no other statement — nothing that could block — (regenerated control
+skeletons). -/
 theorem batch_close_returns {cfg : Cfg} (hfull : ∀ b, ∃ r, cfg.fullOK b r = true) {s : State}
     (h : Reach code cfg s) (hc : s.bgCancelled = true) :
+    (Gen.Skeleton.batchClose = Model.Skeleton.batchClose ∧ Gen.Skeleton.batchFlush = Model.Skeleton.batchFlush ∧
+      Gen.Skeleton.batchStopTimer = Model.Skeleton.batchStopTimer) ∧
     (∀ l s', l.internal = true → step code cfg s l = some s' →
       s'.bgCancelled = true ∧ measure s' < measure s) ∧
     (Quiescent code cfg s → s.ppc = .done ∧ s.bpc = .done ∧ s.closeReturned = true) := by
   have h1 := inv1_reach (reach_good h)
   have h3 := inv3_reach (reach_good h)
   rw [code_is_good]
-  exact ⟨fun l s' hl hs => measure_decreases h1 hc hl hs, fun hq => quiescent_closed h3 (hfull _) hc hq⟩
+  exact ⟨⟨by decide, by decide, by decide⟩, fun l s' hl hs => measure_decreases h1 hc hl hs,
+    fun hq => quiescent_closed h3 (hfull _) hc hq⟩
 
 /-- the producer is ahead (blocked handing over item 9 while the batcher holds a full batch nobody
 asked for) when Close is called — the situation of the repaired deadlock -/
